@@ -10,6 +10,7 @@ Driver for C17.  Commands (→ answers):
   pair <ge25> <c> <a> <varref>                            → q=<stored> reload: class=… amount=…
   pairvar <ge25> <c> <v>                                  → v=<stored> reload: class=… variable=…
   setq <ge25> <et> <oa> <quantity|None> <varref> <newq>   → class=… amount=… q=<stored>
+  retarget <ge25> <et0> <oa0> <et> <oa> <c> <a> <v>       → src=… q=<stored|error> v=<stored|error>
 -/
 open Driver Aoe.AA
 
@@ -79,6 +80,15 @@ def step (f : Family) (line : String) : Family × String :=
       let e := setQuantity k (ofStored k (source f et oa) q v) nq
       (f, s!"class={showOptInt e.aaClass} amount={showOptInt e.aaQty} q={showExO (storedQuantity k e)}")
     | _, _, _, _, _, _ => (f, "bad-op")
+  | ["retarget", g, et0, oa0, et, oa, c, a, v] =>
+    -- effect created as (et0, oa0) with nothing supplied, then type/attribute assigned, then class, amount, variable set
+    match g.toNat?, parseOptInt? et0, parseOptInt? oa0, parseOptInt? et, parseOptInt? oa, parseInt? c, parseInt? a, parseInt? v with
+    | some g, some et0, some oa0, some et, some oa, some c, some a, some v =>
+      let k := width (g != 0)
+      let e0 : Eff := { src := source f et0 oa0, quantity := none, aaClass := none, aaQty := none, var := -1 }
+      let e := setVar (setAmount (setClass (retarget f e0 et oa) c) a) v
+      (f, s!"src={showSrc e.src} q={showExO (storedQuantity k e)} v={showExI (storedVariable k e)}")
+    | _, _, _, _, _, _, _, _ => (f, "bad-op")
   | _ => (f, "bad-op")
 
 def main : IO Unit := loop step { aaEffects := [], partialQ := [], partialV := [], aaAttrs := [] }
